@@ -367,11 +367,11 @@ pub fn detail(v: &VariantSpec) -> Option<String> {
 /// doc comment with one leading space removed per line; a single line as is, several lines each
 /// terminated by a newline
 pub fn doc(v: &VariantSpec) -> Option<String> {
-    if v.disabled || v.docs.is_empty() {
+    let text: Vec<&(String, DocForm)> = v.docs.iter().filter(|(_, f)| *f != DocForm::Marker).collect();
+    if v.disabled || text.is_empty() {
         return None;
     }
-    let lines: Vec<String> = v
-        .docs
+    let lines: Vec<String> = text
         .iter()
         .map(|(d, _)| d.strip_prefix(' ').map(|x| x.to_string()).unwrap_or_else(|| d.clone()))
         .collect();
@@ -391,7 +391,7 @@ pub fn prop_str(v: &VariantSpec, k: &str) -> Option<String> {
         return None;
     }
     v.props_src_order().into_iter().find_map(|(key, l)| match l {
-        PropLit::S(s) if key == k => Some(s),
+        PropLit::S(s) if unraw(&key) == k => Some(s),
         _ => None,
     })
 }
@@ -400,7 +400,7 @@ pub fn prop_int(v: &VariantSpec, k: &str) -> Option<i64> {
         return None;
     }
     v.props_src_order().into_iter().find_map(|(key, l)| match l {
-        PropLit::I(s) if key == k => Some(s),
+        PropLit::I(s) if unraw(&key) == k => Some(s),
         _ => None,
     })
 }
@@ -409,7 +409,7 @@ pub fn prop_bool(v: &VariantSpec, k: &str) -> Option<bool> {
         return None;
     }
     v.props_src_order().into_iter().find_map(|(key, l)| match l {
-        PropLit::B(s) if key == k => Some(s),
+        PropLit::B(s) if unraw(&key) == k => Some(s),
         _ => None,
     })
 }
